@@ -436,7 +436,8 @@ where
             stats.cases += 1;
             stats.cur_nontrivial = false;
             let verdict = (self.test)(ctx, &value, stats);
-            if stats.cur_nontrivial && stats.samples.len() < 4 && stats.cases % 7 == 1 {
+            // samples: some non-trivial cases, and in any case the first case of the worker
+            if (stats.cur_nontrivial && stats.samples.len() < 4 && stats.cases % 7 == 1) || stats.samples.is_empty() {
                 let mut s = serde_json::to_string(&value).unwrap_or_default();
                 if s.len() > 1500 {
                     let mut n = 1500;
